@@ -20,3 +20,31 @@ package assertiontree
 //@ func genInitialRichCheckEffects
 //@ prop C16
 //@ ghost returns-owned
+
+//@ -- C07: every kind of node that the control-flow graph builder can place into a block (simple statements, value
+//@ -- specs, and every expression form that can be a condition) is handled; the 'unrecognized AST node' internal error
+//@ -- is reserved for kinds that cannot occur. (The list of kinds is an assumption about x/tools/go/cfg.)
+//@ func backpropAcrossNode
+//@ prop C07
+//@ modifies *
+//@ ensures handles-ParenExpr (=> (is node *ast.ParenExpr) (= (calls "fmt.Errorf") 0))
+//@ ensures handles-SelectorExpr (=> (is node *ast.SelectorExpr) (= (calls "fmt.Errorf") 0))
+//@ ensures handles-BinaryExpr (=> (is node *ast.BinaryExpr) (= (calls "fmt.Errorf") 0))
+//@ ensures handles-CallExpr (=> (is node *ast.CallExpr) (= (calls "fmt.Errorf") 0))
+//@ ensures handles-UnaryExpr (=> (is node *ast.UnaryExpr) (= (calls "fmt.Errorf") 0))
+//@ ensures handles-StarExpr (=> (is node *ast.StarExpr) (= (calls "fmt.Errorf") 0))
+//@ ensures handles-IndexExpr (=> (is node *ast.IndexExpr) (= (calls "fmt.Errorf") 0))
+//@ ensures handles-SliceExpr (=> (is node *ast.SliceExpr) (= (calls "fmt.Errorf") 0))
+//@ ensures handles-TypeAssertExpr (=> (is node *ast.TypeAssertExpr) (= (calls "fmt.Errorf") 0))
+//@ ensures handles-CompositeLit (=> (is node *ast.CompositeLit) (= (calls "fmt.Errorf") 0))
+//@ ensures handles-BasicLit (=> (is node *ast.BasicLit) (= (calls "fmt.Errorf") 0))
+//@ ensures handles-Ident (=> (is node *ast.Ident) (= (calls "fmt.Errorf") 0))
+//@ ensures handles-ReturnStmt (=> (is node *ast.ReturnStmt) (= (calls "fmt.Errorf") 0))
+//@ ensures handles-AssignStmt (=> (is node *ast.AssignStmt) (= (calls "fmt.Errorf") 0))
+//@ ensures handles-ValueSpec (=> (is node *ast.ValueSpec) (= (calls "fmt.Errorf") 0))
+//@ ensures handles-SendStmt (=> (is node *ast.SendStmt) (= (calls "fmt.Errorf") 0))
+//@ ensures handles-ExprStmt (=> (is node *ast.ExprStmt) (= (calls "fmt.Errorf") 0))
+//@ ensures handles-GoStmt (=> (is node *ast.GoStmt) (= (calls "fmt.Errorf") 0))
+//@ ensures handles-IncDecStmt (=> (is node *ast.IncDecStmt) (= (calls "fmt.Errorf") 0))
+//@ ensures handles-EmptyStmt (=> (is node *ast.EmptyStmt) (= (calls "fmt.Errorf") 0))
+//@ ensures handles-DeferStmt (=> (is node *ast.DeferStmt) (= (calls "fmt.Errorf") 0))
